@@ -17,7 +17,8 @@ def strategy(optimizer, tier):
     return strategies.run_spec(
         optimizer,
         task=strategies.task_spec(encodings=("cont_multi", "cont_multi", "cont_singles", "multi_objective", "mixed",
-                                             "binary", "discrete", "permutation")),
+                                             "binary", "discrete", "permutation"),
+                                  families=strategies.WILD_FAMILIES),
         config=strategies.config_spec(optimizer, max_cycles=(1, 6 if tier == "quick" else 20),
                                       pop_mults=(1, 1.5, 1.5, 2, 3), perturb=0.4),
         modes=("serial",) * 8 + ("thread", "process"), warmup=0.15)
